@@ -21,20 +21,25 @@ from .. import build, gen, impl, model, report, sexp
 SHELLS = ['bash', 'fish', 'zsh', 'pwsh']
 
 MANIFEST = dict(
-    text=('Theorems of Props/C02.v: judge_sound (Spec.Lang.equiv_dfa_expr fuel cd e = Equal -> forall item words w, '
-          'accepts_items cd w <-> denotes e w, where denotes is the inductive language of the validated tree over items '
-          'carrying text, description and || level, within-word languages compared recursively), L-glushkov for the model of '
-          'regex.rs (first/follow tables describe exactly the position language of the tree, n-ary Cat and shared Many1 included), '
-          'L-subset for the model of dfa_from_regex for EVERY pop order (deterministic, state after an item word = set of next '
-          'positions, every state reachable), and C02_language combining them. The models are tied to src/regex.rs and '
+    text=('Theorems of Props/C02.v (all closed under the global context): C02_judge_sound / C02_judge_differ (the executable judge '
+          'Spec.Lang.equiv_dfa_expr: Equal -> forall item words w, accepts_items cd w <-> denotes e w; Differ v -> v read as items '
+          'distinguishes), where denotes is the inductive language of the validated tree over items carrying text, description and '
+          '|| level and a composite word is the set of its within-word item sequences (compared recursively); C02_glushkov '
+          '(L-glushkov for the model of regex.rs: first/follow tables describe exactly the position language of the tree, n-ary Cat '
+          'with the skip-nullable loop and the shared Cat[x, Star x] of Many1 included); C02_subset / C02_subset_language (L-subset '
+          'for the model of dfa_from_regex for EVERY pop order: deterministic, state after an item word = set of next positions, '
+          'accepting = contains the end marker, every state reachable); C02_subwords and C02_language (the model pipeline from a '
+          'validated tree accepts exactly what the tree denotes, inside words and on the command line; the minimised automata enter '
+          'through the hypothesis subs_ok / C02_minimised_transfer, i.e. relative to C03). The models are tied to src/regex.rs and '
           'src/dfa.rs on every run: exact equality of the REGEX stage (positions, inputs with spans, node arena, first, follow, '
-          'intern pool, UnboundedMatchable spans) and of the raw automata (isomorphism, then exact equality under replay of '
-          'the revealed pop order), each stage fed with Rust\'s previous-stage output. Independently of the models, the '
-          'extracted proved judge decides language equality of Rust\'s own RAW, MIN and within-word automata against Rust\'s '
-          'validated tree for every generated grammar x 4 shells (exhaustive trees up to N nodes over {a, b, a "d"} with one ||, '
-          'plus random deep grammars with shuffled definitions, sub-words, commands, [] and ...).'),
+          'intern pool, UnboundedMatchable spans) and of the raw automata (isomorphism, then exact equality under replay of the pop '
+          'order that Rust\'s row order reveals), each stage fed with Rust\'s previous-stage output. Independently of the models, the '
+          'extracted proved judge decides language equality of Rust\'s own RAW, MIN and within-word raw/minimised automata against '
+          'Rust\'s validated tree, and levels_ok judges the || labels of that tree, for every generated grammar x 4 shells '
+          '(exhaustive trees up to N nodes over {a, b, a "d"} with one ||, plus random deep grammars with shuffled definitions, '
+          'sub-words, commands, [] and ...).'),
     design='6 C02, Appendix A.2, A.3',
-    technique='Coq theorems (Berry-Sethi, subset construction for every pop order, sound equivalence judge) + '
+    technique='Coq theorems (Berry-Sethi, subset construction for every pop order, sound and complete-on-answer equivalence judge) + '
               'extracted-model/implementation correspondence per stage + proved decision procedure run on the implementation\'s automata')
 
 SUBSET_FUEL = 20000
